@@ -1183,10 +1183,18 @@ static void alloc_pfx_history(struct rng *r0, unsigned long fail_at, unsigned lo
 					viol("C18", key, "%s returned PFX_ERROR after an allocation failure but the table changed (%d -> %d records)", OPN[op], nbefore,
 					     ENUMN);
 				}
+				/* the change log must not have moved either: a callback for a change that did not happen */
+				if (!CB_BROKEN && !sets_equal(CBS, CBN, ENUM, ENUMN)) {
+					snprintf(key, sizeof(key), "C09:tab:callback-for-failed-operation:%s", OPN[op]);
+					viol("C09", key, "%s failed with PFX_ERROR (allocation failure) and left the table unchanged, but the replayed callbacks now give %d records instead of %d",
+					     OPN[op], CBN, ENUMN);
+					snprintf(key, sizeof(key), "C18:pfx:callback-for-failed-operation:%s", OPN[op]);
+					viol("C18", key, "%s failed with PFX_ERROR but an update callback was delivered", OPN[op]);
+					CB_BROKEN = true;
+				}
 				/* continue from what the table really holds so that one defect is reported once */
 				memcpy(M, ENUM, ENUMN * sizeof(M[0]));
 				MN = ENUMN;
-				CB_BROKEN = true;
 			} else if (!sets_equal(ENUM, ENUMN, M, MN)) {
 				snprintf(key, sizeof(key), "C18:pfx:success-but-not-applied:%s", OPN[op]);
 				viol("C18", key, "%s returned success although an allocation failed, and the table differs from the full effect", OPN[op]);
